@@ -3,6 +3,7 @@ import FoxModel.Spec.Route
 import FoxModel.Spec.Store
 import FoxModel.Model.Lookup
 import FoxModel.Model.Tree
+import FoxModel.Model.WF
 /-
   FoxModel.Driver.Ops — line-protocol handler for the `ops` stream: a case is a list of operations on one
   router (registrations, deletions, truncations, readers, lookups); the handler runs it through the executable
@@ -142,11 +143,16 @@ def step (st : St) (op : String) : St :=
   | ["X"] => st.emit (dumpRoots st.tree.roots ++ " size=" ++ toString st.tree.size ++ " mp=" ++ toString st.tree.maxParams ++ " depth=" ++ toString st.tree.depth) "-"
   | _ => st.emit "bad-op" "bad-op"
 
+/-- one step, then the representation invariant is evaluated on the model tree (tag `wf-violated` if it fails) -/
+def stepChecked (st : St) (op : String) : St :=
+  let st' := step st op
+  if wfRoots st'.tree.roots then st' else st'.tag "wf-violated"
+
 /-- fields: ["ops", "<op>;<op>;…"] -/
 def handle (fields : List String) : String :=
   match fields with
   | [_, ops] =>
-    let st := (splitNonEmpty ops ";").foldl step {}
+    let st := (splitNonEmpty ops ";").foldl stepChecked {}
     "M=" ++ join st.mOut.reverse "|" ++ "\tS=" ++ join st.sOut.reverse "|" ++ "\tT=" ++ join st.tags.reverse ","
   | _ => "M=bad-case"
 
